@@ -57,6 +57,10 @@ def _on_raise(exc, args, kwargs):
 
 
 def _install(ctx):
+    if _state.get('installed'):
+        _state['ctx'] = ctx
+        return
+    _state['installed'] = True
     import parso.python.diff as D
     _state['ctx'] = ctx
     D.DEBUG_DIFF_PARSER = True
